@@ -181,6 +181,16 @@ func TestCheck(t *testing.T) {
 			}
 		}
 	}
+	// Rolled-back frames behind a commit, overwritten only in part by the next (shorter) transaction: the stale rest has
+	// the right salts and a broken checksum chain; the commits that follow are captured all the same.
+	for _, ps := range []int{512, 4096} {
+		for _, ops := range [][]prog.Op{
+			{wtx([]uint32{1, 2}, 0, 0, "commit"), wtx([]uint32{1, 2, 3}, 0, 0, "rollback"), wtx([]uint32{1}, 0, 0, "commit"), wtx([]uint32{2}, 0, 0, "commit"), wtx([]uint32{1, 3}, 0, 0, "commit")},
+			{wtx([]uint32{2}, 0, 0, "commit"), wtx([]uint32{2, 1}, 0, 0, "rollback"), wtx([]uint32{3}, 0, 0, "commit"), {Kind: "ckpt", Mode: "PASSIVE"}, wtx([]uint32{1, 2}, 0, 0, "commit"), {Kind: "restart"}},
+		} {
+			cases = append(cases, prog.Case{PageSize: ps, Start: 3, StartWAL: true, Ops: ops})
+		}
+	}
 	// A write below the captured position is refused and leaves the log as it was.
 	for _, ps := range []int{512, 4096} {
 		hb := prog.Op{Kind: "stray-wal", Mode: "held-body"}
